@@ -49,7 +49,7 @@ CHECKS["C02"] = {
     "registered": True,
     "engine": "pmc-rt",
     "technique": "stateless preemption-bounded exhaustive schedule enumeration of suspend/wake-up programs on a live 2-worker runtime; quiescence-with-suspended-task (stuck) detector as oracle",
-    "level_text": "Every schedule within the deviation bound of suspender/waker programs (waker = task on the other worker or external non-pika thread, optional busy task, one or two waiters, cv and mutex facilities) is executed on the real runtime; a quiescent runtime with an issued wake-up and a task that did not run again is reported, with the pool's thread counts. Further programs: two wake-ups with different restart states (notify_one + interrupt), a notified timed wait (the pending_boost path).",
+    "level_text": "Every schedule within the deviation bound of suspender/waker programs (waker = task on the other worker or external non-pika thread, optional busy task, one or two waiters, cv and mutex facilities) is executed on the real runtime; a quiescent runtime with an issued wake-up and a task that did not run again is reported, with the pool's thread counts. Further programs: two wake-ups with different restart states (notify_one + interrupt), a notified timed wait (the pending_boost path); thread::interrupt (the non-retrying form of set_thread_state) as the only wake-up.",
     "level_note": "Sequentially consistent interleavings only; 2 workers; choice points at the waiter state words, the internal lock/condition variable and at the atomics of set_thread_state, set_active_state, do_yield/do_resume, create_work and switch_status (F-site); fairness is the spin detector of the scheduler. The Promela layer sketched in DESIGN.md was not built.",
     "rule": "pmc-rt: suspender / waker / helper-task programs x all schedules within the deviation bound",
     "parts": [{"bin": "C02_wakeup"}],
@@ -129,7 +129,7 @@ CHECKS["C11"] = {
     "registered": True,
     "engine": "seqx + pmc-rt",
     "technique": "exhaustive input grid (every n up to a bound x worker counts x shape types x throwing sets) through the real bulk on a live runtime + real chunking arithmetic at type boundaries with a hang watchdog + stateless preemption-bounded schedule enumeration of the chunk-stealing workers",
-    "level_text": "Grid: every n in [0,300] (2048 thorough) x workers {1,2,3,4,16} x 7 integral shape types x throwing sets is run through the real thread-pool bulk with per-index counters; chunking arithmetic: the real get_chunk_size at 2^k-1, 2^k, 2^k+1 and max(Shape) for 5 shape types x 7 thread counts must return, tile [0,n) and produce a chunk count that fits init_queue. Schedules: for n <= 4 (5 on 3 workers), every throwing set and both start contexts, every schedule of the workers popping/stealing index chunks within the deviation bound is executed; per-index call counts, unchanged values, exactly one completion after the last call (or exactly one of the thrown errors) are asserted. Values of non-trivially-movable types (string, vector, unique_ptr) for n <= 4 including n == 0.",
+    "level_text": "Grid: every n in [0,300] (2048 thorough) x workers {1,2,3,4,16} x 7 integral shape types x throwing sets is run through the real thread-pool bulk with per-index counters; chunking arithmetic: the real get_chunk_size at 2^k-1, 2^k, 2^k+1 and max(Shape) for 5 shape types x 7 thread counts must return, tile [0,n) and produce a chunk count that fits init_queue. Schedules: for n <= 4 (5 on 3 workers), every throwing set and both start contexts, every schedule of the workers popping/stealing index chunks within the deviation bound is executed; per-index call counts, unchanged values, exactly one completion after the last call (or exactly one of the thrown errors) are asserted. Values of non-trivially-movable types (string, vector, unique_ptr) for n <= 4 including n == 0. A call of f has a duration (scheduling point inside); bulk on a second pool whose workers' global numbers differ from the pool-local ones.",
     "level_note": "The grid runs on a free-running runtime (it enumerates inputs, not schedules); the very-large-n region is checked at the chunking-arithmetic level only (executing 2^32 calls is infeasible); shape types narrower than int do not compile with the pool's bulk (std::min(int, Shape)) and are therefore outside what can be executed; pmc part: sequentially consistent interleavings, 2-3 workers.",
     "rule": "seqx grid + arithmetic boundaries; pmc-rt: n x throwing sets x start context (data choices) x all schedules within the deviation bound",
     "parts": [{"bin": "C11_bulk_grid", "part": "grid"}, {"bin": "C11_bulk", "part": "schedules"}],
@@ -149,7 +149,7 @@ CHECKS["C12"] = {
     "registered": True,
     "engine": "pmc-rt",
     "technique": "stateless preemption-bounded exhaustive schedule enumeration (= enumeration of migration and recycling patterns) of canary-carrying task bodies on a live 2-worker runtime",
-    "level_text": "Every schedule within the deviation bound - i.e. every pattern of which worker resumes which task and in which order thread objects are recycled - of bodies that plant stack canaries at call depth, key-derived callee-saved register canaries (assembly probe around the switch), task-local data and identity, and then yield or suspend twice, for all four stack classes with 2-3 live tasks, is executed on the real runtime; after every switch everything is compared, locals must lie inside the task's own stack and stacks of live tasks must be disjoint; successors of a predecessor that leaves an unconsumed interruption request and task data behind must start clean; a separate program checks the floating-point control state. Also: thread objects recycled across stack-size classes (distinct sizes per class) and the stack-size class 'current' for children and grandchildren at normal and high priority.",
+    "level_text": "Every schedule within the deviation bound - i.e. every pattern of which worker resumes which task and in which order thread objects are recycled - of bodies that plant stack canaries at call depth, key-derived callee-saved register canaries (assembly probe around the switch), task-local data and identity, and then yield or suspend twice, for all four stack classes with 2-3 live tasks, is executed on the real runtime; after every switch everything is compared, locals must lie inside the task's own stack and stacks of live tasks must be disjoint; successors of a predecessor that leaves an unconsumed interruption request and task data behind must start clean; a separate program checks the floating-point control state. Also: thread objects recycled across stack-size classes (distinct non-default sizes for all four classes) and the stack-size class 'current' for children and grandchildren at normal and high priority.",
     "level_note": "Sequentially consistent interleavings only; 2 workers; default stack sizes, default guard-page setting; stack overflow probing is not attempted; the 'program' dimension is small (two switches, depth 0 or 3) - the value of the check is the exhaustive migration x recycling product.",
     "rule": "pmc-rt: canary bodies x stack classes x switch kinds (data choices) x all schedules within the deviation bound",
     "parts": [{"bin": "C12_context"}],
@@ -205,7 +205,7 @@ CHECKS["C20"] = {
     "registered": True,
     "engine": "pmc-rt + mock MPI",
     "technique": "stateless deviation-bounded exhaustive exploration of thread schedules and of the MPI environment's poll answers (pending/complete) on the MPI-enabled instrumented build, with MPI_Test/Testany/Testsome mocked in the harness executable",
-    "level_text": "For every completion mode 0-31, with and without a dedicated polling pool, with 1-2 outstanding requests, every combination of 'still pending' answers of the mock MPI and every thread schedule within the deviation bound is executed on the real polling code; each receiver must be signalled exactly once, only after the mock reported its request complete and with the received data visible, and pika::wait() must not return while a request is in flight (a lost completion is a stuck execution). A directed 34-request program holds back the first 33 requests until the last has completed (pika tests the polling vector in chunks of 32). Further programs: a detached request with pika::wait() as the only waiter; two requests with a dedicated polling pool where MPI test calls take time (scheduling point + yields inside the mock) and requests do not complete eagerly.",
+    "level_text": "For every completion mode 0-31, with and without a dedicated polling pool, with 1-2 outstanding requests, every combination of 'still pending' answers of the mock MPI and every thread schedule within the deviation bound is executed on the real polling code; each receiver must be signalled exactly once, only after the mock reported its request complete and with the received data visible, and pika::wait() must not return while a request is in flight (a lost completion is a stuck execution). A directed 34-request program holds back the first 33 requests until the last has completed (pika tests the polling vector in chunks of 32). Further programs: a detached request with pika::wait() as the only waiter; two requests with a dedicated polling pool where MPI test calls take time (scheduling point + yields inside the mock) and requests do not complete eagerly; three requests with the plain loads and stores of the polling function's request/callback vector code as scheduling points (polling module built with memory-access instrumentation).",
     "level_note": "MPI itself is mocked (requests are harness objects, completion is the explorer's choice); real OpenMPI progress and timing are not exercised; the MPIX continuation modes (32-39) need an MPI extension that is not installed; sequentially consistent interleavings; at most 2 non-canonical successor choices at blocking points per execution.",
     "rule": "pmc-rt: modes x requests x poll answers (data choices, pending costs a deviation) x all schedules within the deviation bound",
     "parts": [{"bin": "C20_mpi", "pika_build": "pika-mpi-mc", "extra": _MPI_EXTRA, "extralibs": _MPI_LIBS}],
